@@ -136,7 +136,7 @@ func idToken(t Tok, email string, r *rand.Rand) (tok string, present bool, null 
 		good := claimsJSON("verified", email, r, "")
 		payload = b64seg(pick(r, "{not json", "<html>", good[:len(good)-1], good+"}", "", good+good))
 	default:
-		payload = b64seg(claimsJSON(t.Claims, email, r, pick(r, "", `,"sub":"1234","aud":"idp-client-id"`)))
+		payload = b64seg(claimsJSON(t.Claims, email, r, pick(r, "", `,"sub":"1234","aud":"idp-client-id"`, `,"hd":"`+hostedDomain+`"`, `,"hd":"`+hostedDomain+`","sub":"99"`)))
 	}
 	segs := []string{b64seg(`{"alg":"RS256","typ":"JWT"}`), payload}
 	for len(segs) < t.Segs {
